@@ -70,7 +70,7 @@ def gen_case(rng, tier, index):
         if restore_heavy and o == "set" and rng.random() < 0.6:
             ki = rng.randrange(min(cap, nkeys))  # re-stores of keys that tend to be present, many ties
         ops.append([o, ki, rng.randrange(1000), rng.randrange(1 << 16)])
-    return {"cap": cap, "nkeys": nkeys, "ops": ops, "exact": exact}
+    return {"cap": cap, "nkeys": nkeys, "ops": ops, "exact": exact, "keys": "big" if index % 4 == 1 else "small"}
 
 
 def shrinkable(case):
@@ -168,10 +168,17 @@ def run_case(case, res):
     from windpyutils.structures.caches import LFUCache
     cap = case["cap"]
     keys = list(range(case["nkeys"]))
+    if case.get("keys") == "big":
+        # ints beyond the small-int cache: equal keys are different objects
+        keys = [10 ** 6 + i for i in range(case["nkeys"])]
+    # a second, independent cache lives next to the one under test (state shared between instances would show)
+    comp = LFUCache(2)
+    comp["companion-a"] = "x"
+    comp["companion-b"] = "y"
     c = LFUCache(cap)
     m = Model(cap)
     for step, (op, ki, v, aux) in enumerate(case["ops"]):
-        k = keys[ki % len(keys)]
+        k = common.fresh(keys[ki % len(keys)])     # an equal key, not the identical object
         n = len(m.val)
         desc = f"{op}({k!r})"
         if op == "set":
@@ -353,6 +360,10 @@ def run_case(case, res):
         order = observe(c, m, desc, res)
         if len(order) >= 2:
             res.seen((cap, tuple(order), tuple((m.lo[x], m.hi[x]) for x in order)))
+    g = outcome(lambda: (sorted(comp), len(comp), comp["companion-a"], comp["companion-b"]))
+    if g != ("ok", (["companion-a", "companion-b"], 2, "x", "y")):
+        raise Violation("other-instance-disturbed", f"a second cache that holds companion-a/companion-b and was not touched during the "
+                        f"history answers (keys, len, values) -> {g}", {})
 
 
 def plan(tier, seed):
